@@ -30,7 +30,9 @@
   a value, add_unmatched, align, partition, remove_repeats never compare values).  Proved in
   addition: the six comparison operators against the IEEE relation per dump (`c11_cmp_nan`, no
   assumption on the series), `remove` (a NaN matches no dump), `add` with any value (per-dump
-  effect as documented, structure well-formed).  Where the code compares through fresh wrappers a
+  effect as documented, structure well-formed), `concatenate_categorical` and partition followed by
+  concatenation with any NaN among the values (per-dump list as documented, structure well-formed:
+  `c11_concat_nan`, `c11_partition_concat_nan_id`).  Where the code compares through fresh wrappers a
   NaN object never equals itself: `add` of a NaN that is already a unique value and
   `concatenate_categorical` of parts that share a NaN enter the same object a second time into the
   unique values (`c11_add_nan_wf_full_is_false`, `c11_concat_nan_full_is_false`; known finding
@@ -38,6 +40,7 @@
 -/
 import KatdalModel.Lemmas.CatRemove
 import KatdalModel.Lemmas.CatNaN
+import KatdalModel.Lemmas.CatNaNConcat
 open Np Categorical
 
 namespace C11
@@ -311,6 +314,33 @@ theorem c11_concat_nan_partial (nan : V → Bool) (parts : List (Cat V)) (hparts
       c.perDump = (parts.map Cat.perDump).flatten ∧ c.numDumps = (parts.map Cat.numDumps).sum := by
   rw [concatenateN_eq nan parts rep hnan]
   exact concat_spec parts hparts hne rep
+
+/-- **NaN-aware concatenate_categorical, any NaN among the unique values of the parts**: the
+    per-dump list of the result is the concatenation of the per-dump lists of the parts (with or
+    without repeat removal); the result starts at dump 0, its boundaries are strictly increasing
+    and end at the sum of the dumps, its indices lie inside the unique values (`Parti`: everything
+    but the distinctness of the unique values, which `c11_concat_nan_full_is_false` refutes). -/
+theorem c11_concat_nan (nan : V → Bool) (parts : List (Cat V)) (hparts : ∀ p ∈ parts, p.Part) (hne : parts ≠ [])
+    (rep : Bool) :
+    ∃ c, concatenateN nan parts rep = .ok c ∧ c.Parti ∧
+      c.perDump = (parts.map Cat.perDump).flatten ∧ c.numDumps = (parts.map Cat.numDumps).sum :=
+  concatN_spec nan parts hparts hne rep
+
+/-- **Partition followed by concatenation is the identity on the per-dump list of every series,
+    NaN included** (with or without repeat removal). -/
+theorem c11_partition_concat_nan_id (nan : V → Bool) (c : Cat V) (h : c.Part) (s1 : Nat) (ss : List Nat)
+    (hs : (0 :: s1 :: ss).Pairwise (· < ·)) (hN : (0 :: s1 :: ss).getLastD 0 = c.numDumps) (rep : Bool) :
+    ∃ parts c', c.partition (0 :: s1 :: ss) = .ok parts ∧ concatenateN nan parts rep = .ok c' ∧
+      c'.Parti ∧ c'.perDump = c.perDump ∧ c'.numDumps = c.numDumps :=
+  partition_concatN_id nan c h s1 ss hs hN rep
+
+/-- **Removing repeats never changes any dump's value**, also after a NaN has been entered twice
+    (unique values not pairwise distinct): same per-dump list, same number of dumps, same unique
+    values, structure well-formed. -/
+theorem c11_remove_repeats_wfi (c : Cat V) (h : c.WFi) (hne : c.idx ≠ []) :
+    ∃ c', c.removeRepeats = .ok c' ∧ c'.WFi ∧ c'.perDump = c.perDump ∧ c'.numDumps = c.numDumps ∧
+      c'.uniq = c.uniq ∧ c'.idx ≠ [] ∧ c'.ev.head? = c.ev.head? :=
+  removeRepeats_wfi c h hne
 
 /-- witness: the series "NaN on dumps 0..3" partitioned at 0, 2, 4 and concatenated again has the
     NaN object twice among its unique values (and two events where one was), although the per-dump
